@@ -298,6 +298,8 @@ def concrete_faults(run, t):
         open(ap, "w").write(LISTING)
         bad_yaml = os.path.join(d, "bad.yaml")
         open(bad_yaml, "w").write("pattern:\n  - mov\n   - : [\n")
+        tab_yaml = os.path.join(d, "tab.yaml")
+        open(tab_yaml, "w").write("pattern:\n  - mov\n  - mov\n\t- call\n")   # one line indented with a TAB: not YAML
         notobj = os.path.join(d, "notobj.bin")
         open(notobj, "w").write("this is not an object file\n")
         unread = os.path.join(d, "unreadable.s")
@@ -306,6 +308,7 @@ def concrete_faults(run, t):
         cases = [
             ("missing_pattern_file", os.path.join(d, "nope.yaml"), ap, InputFileType.assembly),
             ("malformed_yaml", bad_yaml, ap, InputFileType.assembly),
+            ("malformed_yaml_tab_indent", tab_yaml, ap, InputFileType.assembly),
             ("pattern_file_is_directory", unread, ap, InputFileType.assembly),
             ("missing_assembly_file", rp, os.path.join(d, "nope.s"), InputFileType.assembly),
             ("assembly_file_is_directory", rp, unread, InputFileType.assembly),
